@@ -209,6 +209,38 @@ func mutants(base *ref.Program, limit int) []mutant {
 			insertAt(b, len(*b)/2, ref.Cmd{K: "let", Var: "zzUnusedLet", Expr: &ref.Expr{Op: "int", I: 1}})
 			return true
 		})
+		// a name that some other template of the bundle declares as a param, but not this one
+		for k := 0; k < 2; k++ {
+			k := k
+			add("reference to a name only another template declares", func(p *ref.Program) bool {
+				tm, b, _ := nthBlock(p, bi)
+				own := map[string]bool{}
+				for _, pd := range tm.Params {
+					own[pd.Name] = true
+				}
+				var foreign []string
+				for _, f := range p.Files {
+					for _, t := range f.Templates {
+						for _, pd := range t.Params {
+							if !own[pd.Name] {
+								own[pd.Name] = true
+								foreign = append(foreign, pd.Name)
+							}
+						}
+					}
+				}
+				if k >= len(foreign) {
+					return false
+				}
+				// the first and the last foreign name (declared before / after this template, typically)
+				name := foreign[0]
+				if k == 1 {
+					name = foreign[len(foreign)-1]
+				}
+				insertAt(b, len(*b), printVar(name))
+				return true
+			})
+		}
 		add("undeclared variable", func(p *ref.Program) bool {
 			_, b, _ := nthBlock(p, bi)
 			insertAt(b, len(*b), printVar("zzUndeclared"))
